@@ -5,6 +5,11 @@ ROOT = os.path.dirname(os.path.dirname(os.path.abspath(__file__)))
 ALL = ["C%02d" % i for i in range(1, 21)]
 
 CHECKS = {
+ "C10": dict(
+   technique="TLA+ Literals spec over the BigNum library: LitValue / InRange judgment and an enumerator of boundary literals whose rendering is verified by TLC (LitValue(Text(v)) = v); each literal compiled alone by the real front end (ACCEPT <=> InRange) and accepted ones compiled natively in batches and run (printed value = LitValue)",
+   category="exploration",
+   text="Exhaustive over the boundary lattice: 12 integer types x (min-2..min+1, -1, 0, 1, max-1..max+2, 2^k-1/2^k/2^k+1 with both signs for every k up to the width) x 4 bases x 3 separator patterns = 6768 literals, in initialiser / argument / return positions; acceptance decided in both directions and the run-time value observed.",
+   note="Decimal printing by the runtime is the observation of the value; '-0' and leading-zero decimals are not generated."),
  "C07": dict(
    technique="TLA+ Borrow spec: loans with forward taint (the property's 'still used later'), shared/mutable/copied/call-returned references, temporary borrows, blocks and twice-judged loop bodies, three-valued verdict and prescribed output; TLC explores the abstract loan-state graph and emits one program per transition; RefEscape spec for returned references; programs compiled (and legal ones run) by the real compiler",
    category="model_checking",
